@@ -116,7 +116,7 @@ def write_coqproject():
         sh("coq_makefile -f _CoqProject -o Makefile", cwd=COQ, check=True)
 
 
-def coq_make(targets=None, timeout=3000):
+def coq_make(targets=None, timeout=3000, keep_going=False):
     """Full .vo build (never -vos) of the given targets (relative .vo paths) or of everything.
     Serialised by a file lock so that concurrent checks do not race on the Makefile / .vo files."""
     import fcntl
@@ -125,7 +125,7 @@ def coq_make(targets=None, timeout=3000):
         fcntl.flock(lk, fcntl.LOCK_EX)
         write_coqproject()
         t = " ".join(targets) if targets else ""
-        rc, out = sh("timeout %d make -j%d %s" % (timeout, NCPU, t), cwd=COQ, timeout=timeout + 60)
+        rc, out = sh("timeout %d make %s -j%d %s" % (timeout, "-k" if keep_going else "", NCPU, t), cwd=COQ, timeout=timeout + 60)
     return rc == 0, out
 
 
